@@ -66,6 +66,10 @@ def _cases():
                 cases.append({"t": "udpstack", "site": op + "@udp", "occ": occ, "kind": "errno", "arg": e, "cls": "other", "drive": "stack"})
         if op == "recvfrom":
             cases.append({"t": "udpstack", "site": op + "@udp", "occ": 0, "kind": "eagain", "arg": None, "cls": "block", "drive": "stack"})
+        # two transient errors in a row (the second one meets whatever the stack does right after the first)
+        for occ in (0, 1):
+            for i, e in enumerate(LOSS):
+                cases.append({"t": "udpstack", "site": op + "@udp", "occ": occ, "kind": "errno", "arg": e, "arg2": LOSS[(i + occ) % len(LOSS)], "cls": "loss", "drive": "stack"})
     return cases
 
 
@@ -119,7 +123,12 @@ class C25(Check):
         fault = [c["site"], c["occ"], c["kind"]] + ([c["arg"]] if c["arg"] is not None else [])
         label = "%s %s %s%s" % (c["t"], c["site"], c["kind"], ("=" + EN.get(c["arg"], str(c["arg"]))) if c["arg"] is not None else "")
         res = []
-        with world(faults=[fault], out=out, cap=plan["cap"], trace=tr) as net:
+        faults = [fault]
+        if c.get("arg2") is not None:
+            faults.append([c["site"], c["occ"] + 1, c["kind"], c["arg2"]])
+            label += "+" + EN.get(c["arg2"], str(c["arg2"]))
+            out.probe("two-transient-errors-in-a-row")
+        with world(faults=faults, out=out, cap=plan["cap"], trace=tr) as net:
             if c["drive"] == "stack":
                 self._udp(plan, c, net, out, tr, label, res)
             elif c["drive"] == "handshake":
@@ -390,7 +399,7 @@ class C25(Check):
             if hit:
                 if c["cls"] in ("loss", "block"):
                     if exc is not None:
-                        out.violate("transient-fatal", "%s via %s" % (label, name), "transient destination error was fatal: %r" % (exc,))
+                        out.violate("transient-fatal", "%s via %s" % (label.split("+")[0], name), "transient destination error was fatal (%s): %r" % (label, exc,))
                         return
                 else:
                     if exc is None:
